@@ -81,11 +81,11 @@ theorem Sched.Valid.settleAllN_valid {nw : Nat} {conc : Bool} (n : Nat) {d : Sch
 theorem Sched.Valid.settleAll_valid {nw : Nat} {conc : Bool} {d : Sched} (h : d.Valid nw conc) :
     d.settleAll.Valid nw conc := Sched.Valid.settleAllN_valid _ h
 
-theorem Sched.Valid.joinAll_valid {nw : Nat} {conc : Bool} {d : Sched} (h : d.Valid nw conc) :
-    d.joinAll.Valid nw conc := by
+theorem Sched.Valid.joinAll_valid {nw : Nat} {conc : Bool} {d : Sched} (h : d.Valid nw conc) (fb : Bool) :
+    (d.joinAll fb).Valid nw conc := by
   unfold Sched.joinAll
   apply Sched.Valid.fire_valid
-  refine foldl_valid _ ?_ _ (h.fire_valid _).settleAll_valid
+  refine foldl_valid _ ?_ _ ((h.fire_valid _).fire_valid _).settleAll_valid
   intro d' w hd'
   split
   · exact (hd'.fire_valid _).fire_valid _
